@@ -117,21 +117,30 @@ def cleanO (s : Str) : Option Str :=
 
 /-! ### simple helpers -/
 
-def strip1Slash : Str → Str
-  | '/' :: r => r
+/-- `trim_prefix` as written: `&base[prefix.len()..]` (byte slicing; `none` = panic). -/
+def trimPrefixO (path pre : Str) : Option Str :=
+  if pre.isPrefixOf path then dropBytes path (byteLen pre) else some path
+
+/-- `trim_suffix` as written: `&base[..base.len() - suffix.len()]` (`none` = panic). -/
+def trimSuffixO (path suf : Str) : Option Str :=
+  if suf.isSuffixOf path then takeBytes path (byteLen path - byteLen suf) else some path
+
+/-- `trim_prefix` on characters. `Lemmas.trimPrefixO_eq` shows the byte slicing above never
+    panics and equals this (a prefix always ends on a char boundary). -/
+def trimPrefix (path pre : Str) : Str :=
+  if pre.isPrefixOf path then path.drop pre.length else path
+
+/-- `trim_suffix` on characters (see `trimPrefix`). -/
+def trimSuffix (path suf : Str) : Str :=
+  if suf.isSuffixOf path then path.take (path.length - suf.length) else path
+
+/-- remove every leading separator (`str::trim_start_matches('/')`) -/
+def stripSlashes : Str → Str
+  | '/' :: r => stripSlashes r
   | s => s
 
-/-- `trim_prefix`: `&base[prefix.size()..]` — the *character* count used as a byte index.
-    `none` = panic (not a char boundary). -/
-def trimPrefix (path pre : Str) : Option Str :=
-  if pre.isPrefixOf path then dropBytes path pre.length else some path
-
-/-- `trim_suffix`: `&base[..base.size() - suffix.size()]` — character counts as byte index. -/
-def trimSuffix (path suf : Str) : Option Str :=
-  if suf.isSuffixOf path then takeBytes path (path.length - suf.length) else some path
-
-/-- `mash`: `trim_prefix(base, "/")` (never panics: `/` is one byte), `join`, re-collect. -/
-def mash (dir base : Str) : Str := render (components (push dir (strip1Slash base)))
+/-- `mash`: trim all leading separators of `base`, `join`, re-collect the components. -/
+def mash (dir base : Str) : Str := render (components (push dir (stripSlashes base)))
 
 def isAbsolute (s : Str) : Bool := isRooted s
 
@@ -176,7 +185,7 @@ def ext (s : Str) : Outcome Str :=
 
 def trimExt (s : Str) : Outcome Str :=
   match extension s with
-  | some e => Outcome.ofPanicOption (trimSuffix s ('.' :: e))
+  | some e => Outcome.ofPanicOption (trimSuffixO s ('.' :: e))
   | none => .ok s
 
 def name (s : Str) : Outcome Str :=
